@@ -242,15 +242,25 @@ Definition is_reached (o : outcome) : bool :=
 Record profile := mkProfile {
   p_id : Z; p_weight : Q; p_rel : Q; p_cast : Z; p_correct : Z }.
 
+(* on_quorum_reached / on_quorum_failed: not supplied, a callable that returns,
+   or a callable that raises (the exception leaves run_vote: the caller gets no
+   result, but the result had already been recorded and handed to the callback) *)
+Inductive callback := CbNone | CbReturns | CbRaises.
+
 (* what run_vote and the aggregators read from `self`, plus what the public
    mutators and run_vote itself write: strategy / custom_threshold /
-   min_voters (the config), enable_reliability_tracking, the colony, and the
+   min_voters (the config), enable_reliability_tracking, the colony, the
    votes (agent id, vote type) of the last recorded result
-   (self._vote_history[-1], read by update_all_reliability).  The instance keeps
-   no other state that a later verdict depends on. *)
+   (self._vote_history[-1], read by update_all_reliability), the two callbacks,
+   and the statistics counters (_total_votes, _quorums_reached, _quorums_failed
+   as reported by get_statistics).  The instance keeps no other state that a
+   later verdict depends on; in particular NO BALLOT outlives the run_vote call
+   it was cast in, however that call ends. *)
 Record qstate := mkState {
   s_cfg : config; s_tracking : bool; s_colony : list profile;
-  s_last : option (list (Z * kind)) }.
+  s_last : option (list (Z * kind));
+  s_on_reached : callback; s_on_failed : callback;
+  s_total : Z; s_nreached : Z; s_nfailed : Z }.
 
 Inductive op :=
 | OVote (script : nat -> behaviour)          (* run_vote; voter i's agent does script i *)
@@ -260,7 +270,13 @@ Inductive op :=
 | OSetStrategy (s : strategy) (t : option Q) (* set_strategy(strategy, threshold) *)
 | OSetMinVoters (k : Z)                      (* quorum.min_voters = k *)
 | OUpdateRel (id : Z) (ok : bool)            (* update_reliability(name, was_correct) *)
-| OUpdateAll (d : kind).                     (* update_all_reliability(correct_decision) *)
+| OUpdateAll (d : kind)                      (* update_all_reliability(correct_decision) *)
+| OSetCallbacks (r f : callback)             (* quorum.on_quorum_reached = r; quorum.on_quorum_failed = f *)
+| OInterrupted (script : nat -> behaviour) (k : nat).
+    (* if the colony has more than k members: a run_vote during which member k's
+       agent raises a BaseException that is not an Exception (KeyboardInterrupt,
+       SystemExit, ...): `except Exception` does not catch it, the call is
+       abandoned in the middle of vote collection.  Otherwise: nothing. *)
 
 Fixpoint voters_from (i : nat) (colony : list profile) (script : nat -> behaviour) : list voter :=
   match colony with
@@ -280,6 +296,11 @@ Fixpoint cast_from (i : nat) (colony : list profile) (script : nat -> behaviour)
       | Raised => p
       end :: cast_from (S i) r script
   end.
+
+(* the same when collection is abandoned at member k: only the members polled
+   before it have been counted *)
+Definition cast_until (k : nat) (colony : list profile) (script : nat -> behaviour) : list profile :=
+  cast_from 0 (firstn k colony) script ++ skipn k colony.
 
 Fixpoint remove_first (id : Z) (colony : list profile) : list profile :=
   match colony with
@@ -301,29 +322,63 @@ Definition learn (ok : bool) (p : profile) : profile :=
             (p_cast p) c.
 
 Definition set_colony (st : qstate) (c : list profile) : qstate :=
-  mkState (s_cfg st) (s_tracking st) c (s_last st).
+  mkState (s_cfg st) (s_tracking st) c (s_last st)
+          (s_on_reached st) (s_on_failed st) (s_total st) (s_nreached st) (s_nfailed st).
+
+Definition set_cfg (st : qstate) (cfg : config) : qstate :=
+  mkState cfg (s_tracking st) (s_colony st) (s_last st)
+          (s_on_reached st) (s_on_failed st) (s_total st) (s_nreached st) (s_nfailed st).
+
+(* the callback run_vote invokes for this outcome (after the result has been
+   recorded and counted), and how the call ends for the caller *)
+Definition callback_for (st : qstate) (o : outcome) : callback :=
+  match o with
+  | Result r => if r_reached r then s_on_reached st else s_on_failed st
+  | RaisedZeroDivision => CbNone              (* raised inside the aggregator *)
+  end.
+
+Inductive ending := Returned | CallbackRaised | ZeroDivision.
+
+Definition ending_of (st : qstate) (o : outcome) : ending :=
+  match o with
+  | RaisedZeroDivision => ZeroDivision
+  | Result _ => match callback_for st o with CbRaises => CallbackRaised | _ => Returned end
+  end.
+
+(* which callback was invoked: Some true = on_quorum_reached, Some false =
+   on_quorum_failed, None = none *)
+Definition fired (st : qstate) (o : outcome) : option bool :=
+  match o with
+  | Result r => match callback_for st o with CbNone => None | _ => Some (r_reached r) end
+  | RaisedZeroDivision => None
+  end.
 
 Definition step (legacy : bool) (st : qstate) (o : op) : qstate * option outcome :=
   match o with
   | OVote script =>
       let out := run_vote legacy (s_cfg st) (voters_of (s_colony st) script) in
       let colony' := cast_from 0 (s_colony st) script in
-      let last' :=
-        match out with
-        | Result r => Some (combine (map p_id (s_colony st)) (map v_kind (r_votes r)))
-        | RaisedZeroDivision => s_last st        (* raised before the result was recorded *)
-        end in
-      (mkState (s_cfg st) (s_tracking st) colony' last', Some out)
+      (* everything run_vote writes is written BEFORE the callbacks run, so the
+         state after the call does not depend on how a callback ends *)
+      (match out with
+       | Result r =>
+           mkState (s_cfg st) (s_tracking st) colony'
+                   (Some (combine (map p_id (s_colony st)) (map v_kind (r_votes r))))
+                   (s_on_reached st) (s_on_failed st)
+                   (s_total st + r_total r)
+                   (if r_reached r then s_nreached st + 1 else s_nreached st)
+                   (if r_reached r then s_nfailed st else s_nfailed st + 1)
+       | RaisedZeroDivision =>                 (* raised before the result was recorded *)
+           set_colony st colony'
+       end, Some out)
   | OAdd id w => (set_colony st (s_colony st ++ [mkProfile id w 1 0 0]), None)
   | ORemove id => (set_colony st (remove_first id (s_colony st)), None)
   | OSetWeight id w =>
       (set_colony st (update_first id
          (fun p => mkProfile (p_id p) w (p_rel p) (p_cast p) (p_correct p)) (s_colony st)), None)
-  | OSetStrategy s t =>
-      (mkState (mkConfig s t (c_min_voters (s_cfg st))) (s_tracking st) (s_colony st) (s_last st), None)
+  | OSetStrategy s t => (set_cfg st (mkConfig s t (c_min_voters (s_cfg st))), None)
   | OSetMinVoters k =>
-      (mkState (mkConfig (c_strategy (s_cfg st)) (c_custom (s_cfg st)) k)
-               (s_tracking st) (s_colony st) (s_last st), None)
+      (set_cfg st (mkConfig (c_strategy (s_cfg st)) (c_custom (s_cfg st)) k), None)
   | OUpdateRel id ok =>
       (if s_tracking st then set_colony st (update_first id (learn ok) (s_colony st)) else st, None)
   | OUpdateAll d =>
@@ -336,9 +391,18 @@ Definition step (legacy : bool) (st : qstate) (o : op) : qstate * option outcome
          | None => st
          end
        else st, None)
+  | OSetCallbacks r f =>
+      (mkState (s_cfg st) (s_tracking st) (s_colony st) (s_last st) r f
+               (s_total st) (s_nreached st) (s_nfailed st), None)
+  | OInterrupted script k =>
+      (* no ballot of the abandoned call is kept anywhere: only votes_cast of
+         the members polled before the interruption has changed *)
+      (if (k <? length (s_colony st))%nat
+       then set_colony st (cast_until k (s_colony st) script) else st, None)
   end.
 
-(* every vote of a history: the state it was taken in, the script, the outcome *)
+(* every vote of a history that was aggregated: the state it was taken in, the
+   script, the outcome (whether it was then returned or a callback raised) *)
 Fixpoint trace (legacy : bool) (st : qstate) (ops : list op)
   : list (qstate * (nat -> behaviour) * outcome) :=
   match ops with
@@ -368,7 +432,7 @@ Fixpoint init_colony (i : Z) (ws : list (Q * Q)) : list profile :=
   | (w, r) :: rest => mkProfile i w r 0 0 :: init_colony (i + 1) rest
   end.
 Definition init_state (cfg : config) (tracking : bool) (ws : list (Q * Q)) : qstate :=
-  mkState cfg tracking (init_colony 0 ws) None.
+  mkState cfg tracking (init_colony 0 ws) None CbNone CbNone 0 0 0.
 
 (* ---------------------------------------------------------------------- *)
 (* correspondence                                                           *)
@@ -379,18 +443,41 @@ Definition q_obs (q : Q) : list Z := let r := Qred q in [Qnum r; Zpos (Qden r)].
 (* weights that went through the (float) reliability division are observed on a 2^-30 grid *)
 Definition q_grid (q : Q) : Z := Qfloor (q * inject_Z (2 ^ 30) + (1 # 2)).
 
-Definition obs_of (o : outcome) : list (list Z) :=
+(* one aggregated vote: how the call ended for the caller (1 = a result was
+   returned, 2 = a callback raised; the result is then the one recorded in the
+   vote history and handed to the callback), the result, and which callback
+   was invoked (0 none, 1 on_quorum_reached, 2 on_quorum_failed) *)
+Definition obs_of (e : ending) (o : outcome) : list (list Z) :=
   match o with
   | RaisedZeroDivision => [[-1]%Z]
   | Result r =>
-      [ [1%Z; (if r_reached r then 1 else 0)%Z; kind_code (r_decision r);
+      [ [(match e with CallbackRaised => 2 | _ => 1 end)%Z;
+         (if r_reached r then 1 else 0)%Z; kind_code (r_decision r);
          r_total r; r_permit r; r_block r; r_abstain r; len (r_votes r)] ]
       ++ map (fun v => kind_code (v_kind v) :: q_grid (v_weight v) :: q_obs (v_conf v)) (r_votes r)
   end.
 
+Definition obs_vote (st : qstate) (o : outcome) : list (list Z) :=
+  obs_of (ending_of st o) o
+  ++ [[(-4)%Z; match fired st o with None => 0 | Some true => 1 | Some false => 2 end]%Z].
+
 Definition obs_state (st : qstate) : list (list Z) :=
   [(-2)%Z; len (s_colony st)]
-  :: map (fun p => [p_id p; p_cast p; p_correct p; q_grid (p_rel p); q_grid (p_weight p)]) (s_colony st).
+  :: map (fun p => [p_id p; p_cast p; p_correct p; q_grid (p_rel p); q_grid (p_weight p)]) (s_colony st)
+  ++ [[(-5)%Z; s_total st; s_nreached st; s_nfailed st]].
+
+(* the observations of a whole history: every run_vote call in order (an
+   abandoned one is the row [-3]), then the final state *)
+Fixpoint obs_history (legacy : bool) (st : qstate) (ops : list op) : list (list Z) :=
+  match ops with
+  | [] => obs_state st
+  | o :: rest =>
+      (match o with
+       | OVote script => obs_vote st (run_vote legacy (s_cfg st) (voters_of (s_colony st) script))
+       | OInterrupted _ k => if (k <? length (s_colony st))%nat then [[(-3)%Z]] else []
+       | _ => []
+       end) ++ obs_history legacy (fst (step legacy st o)) rest
+  end.
 
 (* script given as a list; voters beyond it raise *)
 Definition script_of (l : list behaviour) : nat -> behaviour := fun i => nth i l Raised.
@@ -400,8 +487,7 @@ Definition case := (config * bool * list (Q * Q) * list op)%type.
 
 Definition run_case_gen (legacy : bool) (c : case) : list (list Z) :=
   let '(cfg, tracking, ws, ops) := c in
-  let st := init_state cfg tracking ws in
-  concat (map obs_of (run_history legacy st ops)) ++ obs_state (final_state legacy st ops).
+  obs_history legacy (init_state cfg tracking ws) ops.
 
 Definition run_case (c : case) : list (list Z) := run_case_gen false c.
 Definition run_case_legacy (c : case) : list (list Z) := run_case_gen true c.
